@@ -34,7 +34,7 @@ pub fn plan(p: &EpParams) -> Plan {
     Plan {
         episodes: n,
         exhaustive: false,
-        rule: "multi-thread runtime (6 workers, real clock): 300-1200 registered push subscriptions, the push loop ticking every 1-3 ms, 3-5 clients each issuing calls for 150 ms (quick) / 400 ms (thorough) of wall time, drawn from CreateSubscription(push) / GetSubscription / DeleteSubscription / ListSubscriptions / Pull(return_immediately) / Publish / Acknowledge, and on the topic map (40 topics + a pool of 4 names) ListTopics / CreateTopic / DeleteTopic / GetTopic / ListTopicSubscriptions. Oracle: completed-call counter watched from a non-worker thread; no completion for 15 s of wall time while calls are outstanding, and none in another 15 s after the monitor has stopped the push loop = violation (blocked threads); calls that complete once the loop is stopped were buried under push rounds on a busy machine = inconclusive; not done after 90 s = inconclusive. Non-trivial: push subscriptions were created while the loop was ticking (registry walked at least 20 times during the client phase). Distinct: (registered, interval, clients, calls per kind).".into(),
+        rule: "multi-thread runtime (6 workers, real clock): 300-1200 registered push subscriptions, the push loop ticking every 1-3 ms, 3-5 clients each issuing calls for 150 ms (quick) / 400 ms (thorough) of wall time and at least 400 of them (bounded by 3 s), drawn from CreateSubscription(push) / GetSubscription / DeleteSubscription / ListSubscriptions / Pull(return_immediately) / Publish / Acknowledge, and on the topic map (40 topics + a pool of 4 names) ListTopics / CreateTopic / DeleteTopic / GetTopic / ListTopicSubscriptions. Oracle: completed-call counter watched from a non-worker thread; no completion for 15 s of wall time while calls are outstanding, and none in another 15 s after the monitor has stopped the push loop = violation (blocked threads); calls that complete once the loop is stopped were buried under push rounds on a busy machine = inconclusive; not done after 90 s = inconclusive. Non-trivial: push subscriptions were created while the loop was ticking (registry walked at least 20 times during the client phase). Distinct: (registered, interval, clients, calls per kind).".into(),
     }
 }
 
@@ -178,7 +178,9 @@ async fn episode(p: &EpParams, sh: Arc<Shared>) -> EpReport {
             let mut next = 0u32;
             let t_start = std::time::Instant::now();
             for i in 0..n_calls {
-                if t_start.elapsed() >= phase {
+                // at least 400 calls per client however slow the machine is (bounded by 3 s), and no
+                // fewer than fit into the phase
+                if t_start.elapsed() >= phase && (i >= 400 || t_start.elapsed() >= Duration::from_secs(3)) {
                     break;
                 }
                 let kind = *r.pick(&["CreatePush", "CreatePush", "CreatePush", "GetSub", "DeleteSub", "ListSubs", "PullRI", "Publish", "Ack", "GetRegistered", "SharedCreate", "SharedCreate", "SharedDelete", "SharedDelete", "ListTopics", "ListTopics", "TopicCreate", "TopicDelete", "GetTopic", "ListTopicSubs"]);
